@@ -39,6 +39,7 @@ type goBuilder struct {
 	imports map[string]string
 	err     string
 	cand    int
+	substituted bool // an unnameable interface value was replaced by nil: a panic is then not conclusive
 }
 
 func (g *goBuilder) fail(format string, a ...interface{}) string {
@@ -272,7 +273,13 @@ func (g *goBuilder) dynValue(t types.Type, s *Sexp, depth int) string {
 	}
 	head := s.List[0].Atom
 	if head == "dother" {
-		return g.fail("interface value of a type the model does not name (dother)")
+		// a non-nil value of a dynamic type the encoding does not name: use a harmless stand-in
+		if n, ok := t.(*types.Named); ok && n.Obj().Pkg() != nil && n.Obj().Pkg().Path() == "context" && n.Obj().Name() == "Context" {
+			g.imports["context"] = "context"
+			return "context.Background()"
+		}
+		g.substituted = true
+		return "nil"
 	}
 	for _, c := range g.vc.S.dyn {
 		if c.ctor == head {
@@ -418,6 +425,10 @@ func replayOnce(P *Program, r *Result, cand int) (note, suffix string) {
 		return info.Verdict, "no-failing-input-found"
 	}
 	panicked := strings.Contains(out, "VERIF-PANIC:")
+	if panicked && g.substituted {
+		info.Verdict = "the replay panicked, but an interface input the model could not name was replaced by nil, so the panic is not conclusive"
+		return info.Verdict, "no-failing-input-found"
+	}
 	if strings.HasPrefix(r.Class, "safe:") {
 		if panicked {
 			info.Verdict = "reproduced: the real function panics on the solver's input"
